@@ -250,6 +250,62 @@ def c13(run):
     run.exhaustive = False
 
 
+# ------------------------------------------------------------------------------------------------ C11
+def mc_pipeline(run, maxreads, tokbuf, liveness=True):
+    c = "SPECIFICATION FairSpec\nCONSTANTS MaxReads = %d  TokBuf = %d  EmptyIsEOF = FALSE\n" % (maxreads, tokbuf)
+    c += "INVARIANTS CloseAtMostOnce CloseBeforeQuiet StopsReading ReadErrPreferred\n"
+    if liveness:
+        c += "PROPERTIES Returns Quiesces LexerExits\n"
+    c += "CHECK_DEADLOCK FALSE\n"
+    return run.mc("BclPipeline", c, label="MC_Pipeline(reads<=%d,buf=%d)" % (maxreads, tokbuf), timeout=3000)
+
+
+def c11(run):
+    run.rule = ("MC: BclPipeline (reader, lexer, parser, caller; rendezvous and buffered channels; done; deferred Close) over every reader script of <= R reads "
+                "(27 read results: no data / data with 0..2 tokens, a syntax error, a lexical failure; nil / EOF / error) under all interleavings with weak fairness per action: "
+                "Returns, Quiesces with Close exactly once, lexer exits, <= 2 reads after a lexical failure, read error preferred (R=2 quick, 3 thorough). "
+                "GEN: every script with the set of return classes over all schedules; the real ParseFile / InterpretFile / UnmarshalFile run on a FileInput playing the "
+                "script, with and without jitter at the hook points: must return within the watchdog with a class the model allows, Close exactly once at quiescence, "
+                "no goroutine of package bcl left, <= 3 reads after the failure. Non-trivial = scripts of >= 2 reads; distinct by script.")
+    run.assumptions += ["bounded time on the real code is a 3 s watchdog, not a proof", "schedules of the real goroutines are sampled (jitter at hook points), not enumerated"]
+    mc_pipeline(run, 2 if run.quick else 3, 2)
+    c = "SPECIFICATION Spec\nCONSTANTS MaxReads = 2  TokBuf = 2  EmptyIsEOF = FALSE\nINVARIANT Emit\nCHECK_DEADLOCK FALSE\n"
+    run.gen_replay("Gen_Pipe", c, ["replay-pipe", "--reps", "6" if run.quick else "30", "--seed", str(run.seed)], "C11:scripts")
+    tv_pipe(run, "C11:tv", 60 if run.quick else 400, ("CloseAtMostOnce",))
+    run.exhaustive = True
+
+
+def tv_pipe(run, stage, n, invariants, race=False, seed_off=0):
+    import os
+    tr = os.path.join(run.scratch, stage.replace(":", "_") + ".ndjson")
+    s = run.vh(["drive-pipe", "--n", str(n), "--seed", str(run.seed * 100 + seed_off), "--out", tr], stage + ":drive", race=race)
+    run.traces -= s.get("judged", 0)
+    ok = run.tv("Trace_Pipe", {}, tr, stage + ":tlc", s.get("judged", 0), invariants=invariants, timeout=1800)
+    if ok:
+        run.extra["pipeline_events_validated"] = run.extra.get("pipeline_events_validated", 0) + (s.get("extra") or {}).get("events", 0)
+    return ok
+
+
+# ------------------------------------------------------------------------------------------------ C12
+def c12(run):
+    run.level = "model_checking"
+    run.rule = ("MC: MC_Race — lexer and parser around the token channel (capacity edge included) with scalar vector clocks; the line table is written at every refill and "
+                "read by every diagnostic; with the accesses inside one critical section NoRace holds in all interleavings (without it TLC finds the race in 7 steps). "
+                "TV: real ParseFile calls (many erroneous lines read a few bytes at a time, valid multi-chunk input, early lexical failure, late syntax error with zero-byte "
+                "reads and data+EOF, read errors, model scripts; half of them with jitter at the hook points) recorded per goroutine; Trace_Pipe accepts each as a behaviour "
+                "of the pipeline and recomputes happens-before from the recorded channel operations and critical sections: no unordered write/read of the line table. "
+                "OTHER OBSERVER: the same drivers and N concurrent callers (different inputs; one shared Prog) run from a -race build; any race-detector report with a frame "
+                "of package bcl is a violation, and concurrent results must equal the sequential ones. Non-trivial = executions with >= 3 reads / every concurrent call.")
+    run.assumptions += ["memory other than the instrumented line table is watched by the Go race detector, an external observer (level 'other' for that part)",
+                        "goroutine schedules of the real code are sampled, not enumerated"]
+    run.mc("MC_Race", cfg(constants=dict(Chunks=3, TokPerChunk=2, TokBuf=2, Guarded=True), invariants=("NoRace",)), label="MC_Race(guarded)")
+    q = run.quick
+    tv_pipe(run, "C12:hb", 60 if q else 400, ("NoRace", "CloseAtMostOnce"))
+    tv_pipe(run, "C12:racedet", 60 if q else 300, ("CloseAtMostOnce",), race=True, seed_off=1)
+    run.vh(["drive-conc", "--n", "8", "--rounds", "15" if q else "120", "--seed", str(run.seed)], "C12:callers", race=True)
+    run.exhaustive = False
+
+
 # ------------------------------------------------------------------------------------------------ C16
 def c16(run):
     run.rule = ("GEN: bind cases (descriptor x block) with the specification's flag 'sens' = two or more failing entries or keys colliding on one field "
@@ -307,6 +363,8 @@ CHECKS = {
     "C07": (c07, "model_checking"),
     "C09": (c09, "model_checking"),
     "C10": (c10, "model_checking"),
+    "C11": (c11, "model_checking"),
+    "C12": (c12, "model_checking"),
     "C13": (c13, "model_checking"),
     "C15": (c15, "model_checking"),
     "C16": (c16, "model_checking"),
